@@ -6,6 +6,7 @@
 import Driver.Proto
 import Lace.Spec.ISA
 import Lace.Model.VM
+import Driver.RunH
 open Lace Lace.Driver
 
 /-- `X02 stackOn minimal instr <machine> inp-hex`
@@ -17,7 +18,7 @@ def handleX02 (toks : List String) : String :=
     | some so, some mi, some instr, some (m, [inp]) =>
       match parseBytes inp with
       | some inp =>
-        let w : World := { inp := inp, out := [] }
+        let w : World := { inp := inp, outRev := [] }
         let i := BitVec.ofNat 16 instr
         let rm := VM.execute (so != 0) (mi != 0) i m w
         let rs := ISA.exec (so != 0) (mi != 0) (ISA.decode i) m w
@@ -29,6 +30,7 @@ def handleX02 (toks : List String) : String :=
 def handle (line : String) : String :=
   match line.trimAscii.toString.splitOn " " with
   | "X02" :: rest => handleX02 rest
+  | "X03" :: rest => handleX03 rest
   | _ => "bad-request"
 
 partial def loop (h : IO.FS.Stream) (out : IO.FS.Stream) : IO Unit := do
